@@ -11,7 +11,7 @@ PROP = {
             "determinism clause only); every case is loaded 3x in the worker and once in each of P = 8 (quick) / 16 (thorough) fresh processes; "
             "distinct = FNV of the document list (held or refuted); non-trivial = at least one shared setting or a collision",
     "min_nontrivial": {"quick": 1500, "thorough": 20000},
-    "max_secs": {"quick": 75, "thorough": 1000},
+    "max_secs": {"quick": 600, "thorough": 1500},
     "require_clauses": ["1:determinism", "2:merge-model", "family:merge", "family:collision"],
     "assumptions": COMMON_ASSUME + [
         "reference model: every document normalised to nested keys, folded left; objects merged, scalars overwritten by the later document, arrays = earlier ++ (later minus already present); "
